@@ -403,6 +403,94 @@ def g_not(a):
     return z3.Not(a)
 
 
+_CONJ_MEMO = {}
+_NO_GMINUS = bool(__import__("os").environ.get("VSX_NO_GMINUS"))
+
+
+def _remember_conj(term, parts):
+    if len(_CONJ_MEMO) > 200000:
+        _CONJ_MEMO.clear()
+    _CONJ_MEMO[term.get_id()] = (term, parts)       # the term is kept alive so that its id stays its own
+
+
+def g_conj(a):
+    """conjuncts of a guard (And flattened, Not(Or) opened by de Morgan); memoised per term"""
+    hit = _CONJ_MEMO.get(a.get_id())
+    if hit is not None:
+        return hit[1]
+    out = tuple(_g_conj(a))
+    _remember_conj(a, out)
+    return out
+
+
+def _g_conj(a):
+    out = []
+    stack = [a]
+    while stack:
+        t = stack.pop()
+        if z3.is_and(t):
+            stack.extend(reversed(t.children()))
+        elif z3.is_not(t) and z3.is_or(t.arg(0)):
+            stack.extend(g_not(c) for c in reversed(t.arg(0).children()))
+        elif z3.is_true(t):
+            continue
+        else:
+            out.append(t)
+    return out
+
+
+def g_disj(a):
+    """disjuncts of a guard (Or flattened, Not(And) opened by de Morgan)"""
+    out = []
+    stack = [a]
+    while stack:
+        t = stack.pop()
+        if z3.is_or(t):
+            stack.extend(reversed(t.children()))
+        elif z3.is_not(t) and z3.is_and(t.arg(0)):
+            stack.extend(g_not(c) for c in reversed(t.arg(0).children()))
+        elif z3.is_false(t):
+            continue
+        else:
+            out.append(t)
+    return out
+
+
+def g_minus(g0, e):
+    """g0 and not e, kept as a flat conjunction: each disjunct of e loses the conjuncts it shares with g0
+    (a and not(a and c) == a and not c).  Escape guards are of that shape (the guard in force when the return /
+    break happened, strengthened by its condition), so the guard after k guarded returns stays a list of k literals
+    instead of a nest of negated conjunctions - which keeps queries decomposable by variable."""
+    if e is False:
+        return g0
+    if e is True or g0 is False:
+        return False
+    if _NO_GMINUS:
+        return g_norm(g_and(g0, g_not(e)))
+    G = [] if g0 is True else list(g_conj(g0))     # a copy: the memoised list must not grow
+    ids = set(t.get_id() for t in G)
+    for ek in g_disj(e):
+        if z3.is_true(ek):
+            return False
+        rest = [x for x in g_conj(ek) if x.get_id() not in ids]
+        if any(z3.is_false(x) or g_not(x).get_id() in ids for x in rest):
+            continue                                   # this escape cannot have happened under g0
+        if not rest:
+            return False                               # g0 implies the escape
+        n = g_not(rest[0]) if len(rest) == 1 else z3.Not(z3.And(*rest))
+        for t in g_conj(n):
+            if t.get_id() not in ids:
+                G.append(t)
+                ids.add(t.get_id())
+    if not G:
+        return True
+    if len(G) == 1:
+        return G[0]
+    r = z3.And(*G)
+    _remember_conj(r, tuple(G))
+    return r
+
+
 def g_expr(a):
     if a is True:
         return z3.BoolVal(True)
